@@ -43,8 +43,11 @@ type compCons struct {
 }
 
 func compOf(v ssa.Value, depth int) (resComp, bool) {
-	if depth > 4 {
+	if depth > 6 {
 		return resComp{}, false
+	}
+	if w, ok := ParamSubst[v]; ok && w != v {
+		return compOf(w, depth+1)
 	}
 	switch x := v.(type) {
 	case *ssa.Call:
